@@ -238,15 +238,16 @@ impl<'a> BTreeReader<'a> {
 
             match header.page_type() {
                 PageType::BTreeLeaf => {
-                    let leaf = LeafNode::from_page(page_data)?;
-                    let exhausted = leaf.cell_count() == 0;
-                    return Ok(Cursor {
+                    LeafNode::from_page(page_data)?;
+                    let mut cursor = Cursor {
                         storage: self.storage,
                         root_page: self.root_page,
                         current_page,
                         current_index: 0,
-                        exhausted,
-                    });
+                        exhausted: false,
+                    };
+                    cursor.skip_to_next_cell()?;
+                    return Ok(cursor);
                 }
                 PageType::BTreeInterior => {
                     let interior = InteriorNode::from_page(page_data)?;
@@ -364,14 +365,15 @@ impl<'a> BTreeReader<'a> {
                         SearchResult::NotFound(idx) => idx,
                     };
 
-                    let exhausted = index >= leaf.cell_count() as usize;
-                    return Ok(Cursor {
+                    let mut cursor = Cursor {
                         storage: self.storage,
                         root_page: self.root_page,
                         current_page,
                         current_index: index,
-                        exhausted,
-                    });
+                        exhausted: false,
+                    };
+                    cursor.skip_to_next_cell()?;
+                    return Ok(cursor);
                 }
                 PageType::BTreeInterior => {
                     let interior = InteriorNode::from_page(page_data)?;
@@ -1262,15 +1264,16 @@ impl<'a, S: Storage> BTree<'a, S> {
 
             match header.page_type() {
                 PageType::BTreeLeaf => {
-                    let leaf = LeafNode::from_page(page_data)?;
-                    let exhausted = leaf.cell_count() == 0;
-                    return Ok(Cursor {
+                    LeafNode::from_page(page_data)?;
+                    let mut cursor = Cursor {
                         storage: self.storage,
                         root_page: self.root_page,
                         current_page,
                         current_index: 0,
-                        exhausted,
-                    });
+                        exhausted: false,
+                    };
+                    cursor.skip_to_next_cell()?;
+                    return Ok(cursor);
                 }
                 PageType::BTreeInterior => {
                     let interior = InteriorNode::from_page(page_data)?;
@@ -1304,14 +1307,15 @@ impl<'a, S: Storage> BTree<'a, S> {
                         SearchResult::NotFound(idx) => idx,
                     };
 
-                    let exhausted = index >= leaf.cell_count() as usize;
-                    return Ok(Cursor {
+                    let mut cursor = Cursor {
                         storage: self.storage,
                         root_page: self.root_page,
                         current_page,
                         current_index: index,
-                        exhausted,
-                    });
+                        exhausted: false,
+                    };
+                    cursor.skip_to_next_cell()?;
+                    return Ok(cursor);
                 }
                 PageType::BTreeInterior => {
                     let interior = InteriorNode::from_page(page_data)?;
@@ -1394,44 +1398,48 @@ impl<'a, S: Storage + ?Sized> Cursor<'a, S> {
         }
 
         self.current_index += 1;
+        self.skip_to_next_cell()?;
+        Ok(!self.exhausted)
+    }
 
-        let page_data = self.storage.page(self.current_page)?;
-        let leaf = LeafNode::from_page(page_data)?;
-
-        if self.current_index < leaf.cell_count() as usize {
-            return Ok(true);
-        }
-
-        let next_page = leaf.next_leaf();
-
-        if next_page == 0 {
-            self.exhausted = true;
-            return Ok(false);
-        }
-
+    /// Moves a cursor that points past the last cell of its leaf (or at an empty leaf, which
+    /// deletes leave behind in the chain) to the first cell of the next non-empty leaf, and marks
+    /// it exhausted when the leaf chain ends.
+    fn skip_to_next_cell(&mut self) -> Result<()> {
         let page_count = self.storage.page_count();
-        if next_page >= page_count {
-            bail!(
-                "corrupt next_leaf pointer: page {} has next_leaf={} but page_count={}",
-                self.current_page,
-                next_page,
-                page_count
-            );
+        let mut hops = 0u32;
+
+        loop {
+            let page_data = self.storage.page(self.current_page)?;
+            let leaf = LeafNode::from_page(page_data)?;
+
+            if self.current_index < leaf.cell_count() as usize {
+                self.exhausted = false;
+                return Ok(());
+            }
+
+            let next_page = leaf.next_leaf();
+
+            if next_page == 0 {
+                self.exhausted = true;
+                return Ok(());
+            }
+
+            if next_page >= page_count || hops >= page_count {
+                bail!(
+                    "corrupt next_leaf pointer: page {} has next_leaf={} but page_count={}",
+                    self.current_page,
+                    next_page,
+                    page_count
+                );
+            }
+            hops += 1;
+
+            self.storage.prefetch_pages(next_page + 1, 2);
+
+            self.current_page = next_page;
+            self.current_index = 0;
         }
-
-        self.storage.prefetch_pages(next_page + 1, 2);
-
-        self.current_page = next_page;
-        self.current_index = 0;
-
-        let next_page_data = self.storage.page(self.current_page)?;
-        let next_leaf = LeafNode::from_page(next_page_data)?;
-        if next_leaf.cell_count() == 0 {
-            self.exhausted = true;
-            return Ok(false);
-        }
-
-        Ok(true)
     }
 
     pub fn prev(&mut self) -> Result<bool> {
